@@ -109,6 +109,13 @@ def check_copy(ctx, path_in, path_out, task, strip_logs=False, strip_basins=Fals
             # command logs of earlier runs may be renamed (archived) but must not be lost
             for n in li:
                 if TASK_LOG.match(n) and li[n].shape[0]:
+                    if task == "condense" and "_" not in n \
+                            and any(m.startswith(n + "_") for m in li):
+                        # documented in the task: when a file is condensed repeatedly with
+                        # unchanged metadata, the log of the previous run is not archived a
+                        # second time under the same name
+                        ctx.count("condense_previous_log_not_archived_again(documented)")
+                        continue
                     base = n.split("_")[0]
                     want = h5equiv._strings(li[n])
                     if not any(m.startswith(base) and h5equiv._strings(lo[m]) == want
